@@ -229,3 +229,23 @@ func vC20Seal(sc *SecretConnection, out []byte, frame []byte) {
 	vSealInto(out, frame, sc.sendNonce, sc.shrSecret)
 	incr2Nonce(sc.sendNonce)
 }
+
+// N2b: the two directions of a connection use DIFFERENT nonce sequences (otherwise a frame a node
+// sent can be played back to it and decrypts): the nonces differ exactly in the lowest bit, and
+// the two ends mirror each other (what one sends with, the other receives with).
+func VerifHarness_C20_N2_direction_nonces() {
+	var lo, hi [32]byte
+	lo[0], hi[0] = 1, 2
+	lo[31], hi[31] = byte(vNondetLen("lo", 0, 3)), byte(vNondetLen("hi", 0, 3))
+	aRecv, aSend := genNonces(&lo, &hi, true)  // the end holding the lower ephemeral key
+	bRecv, bSend := genNonces(&lo, &hi, false) // the other end
+	vReach("nonces-generated")
+	vAssert(*aRecv != *aSend && *bRecv != *bSend, "N2b-send-and-receive-nonces-differ")
+	vAssert(*aSend == *bRecv && *bSend == *aRecv, "N2b-the-two-ends-mirror-each-other")
+	d := *aRecv
+	d[23] ^= 0x01
+	vAssert(d == *aSend, "N2b-directions-differ-exactly-in-the-lowest-bit")
+	// stepping by two keeps the directions apart for ever
+	incr2Nonce(aSend)
+	vAssert(aSend[23]&1 != aRecv[23]&1, "N2b-parity-kept-apart-after-increment")
+}
